@@ -156,6 +156,13 @@ def w_large(acc, n):
         acc.run("fields", o_fields, {"keys": keys, "mw": "normalize", "inplace": inplace}, True)
         for cs in (True, False):
             acc.run("fields", o_fields, {"keys": keys, "mw": "custom", "order": ["b", "a1", "c"], "case_sensitive": cs, "inplace": inplace}, True)
+    # long custom orders (the lookup must not change character with the length of the order list)
+    few = [KEYS[(i * 5) % len(KEYS)] for i in range(12)] + ["K7", "k31", "Key12", "zz"]
+    for m in (15, 16, 17, 18, 40, n):
+        order = ["Key%d" % i if i % 2 else "k%d" % i for i in range(m)]
+        for cs in (True, False):
+            for inplace in (True, False):
+                acc.run("fields", o_fields, {"keys": few + ["key3", "KEY5", "k2", "K4"], "mw": "custom", "order": order, "case_sensitive": cs, "inplace": inplace}, True)
     acc.classes["large-entry"] += 1
 
 
